@@ -170,13 +170,19 @@ PLAN = {
              "return (outside the fragments). A device model would be a different technique family.",
     ),
     "C10": dict(
-        verus=["group_cycle", "wrapped"], kani=[], level="proof",
-        claim="SubDeviceGroup::is_state, verbatim (Verus, any group size, any frame size >= one state check): Ok(true) only if EVERY SubDevice of the group "
+        verus=["group_cycle", "wrapped", "pdi_config"], kani=["summaries"], level="proof",
+        claim="wait_for_state extracted WHOLE with its timeout scope made explicit (rule R18): Ok only if one sweep found every member in the requested state, and the polling "
+              "loop lies inside the state-transition timeout scope with the remaining time as its termination measure (a stalled device ends in the timeout error, not in an "
+              "endless loop); transition_to's request loop + wait as one fragment: Ok only if the request was written to and acknowledged by EVERY member and every member then "
+              "reported the state; request_subdevice_state_nowait (own station address, error flag refused; unit pdi_config); TxRxResponse summaries (Kani, every 4-bit state per "
+              "device, groups of 1..=3): is_in_state / all_op / group_in_single_state say exactly what every device reported, group_state is the union of the state bits. "
+              "SubDeviceGroup::is_state, verbatim (Verus, any group size, any frame size >= one state check): Ok(true) only if EVERY SubDevice of the group "
               "answered an AL-status read addressed to its own configured address with the requested state; the loop terminates and checks exactly len() "
               "devices (the debug_assert is proved); push_state_checks sends the reads in group order; the checked exchanges it rests on are the C11 contracts",
-        note="network = echo-shape assumption (a reply has the datagram boundaries of the request; contents arbitrary). NOT decided: transition_to's request loop "
-             "(iter_mut adapter), wait_for_state's timeout wrapper (async block + TimeoutFuture), request_subdevice_state_nowait, MainDevice::wait_for_state and "
-             "the TxRxResponse summaries",
+        note="network = echo-shape assumption (a reply has the datagram boundaries of the request; contents arbitrary). Time: assumption A-TIME-1 (an await inside a timeout scope that "
+             "suspends takes positive time; TimeoutFuture::poll tests its timer on every resume) - real time is not modelled. 'To no device outside the group' is structural "
+             "(the loop runs over the group's own list; effects are observed through positive predicates). NOT decided: MainDevice::wait_for_state (BRD variant); summaries for "
+             "groups larger than 3",
     ),
     "C11": dict(
         verus=["wrapped"], kani=["wkc"], level="proof",
